@@ -22,7 +22,8 @@ RULE = ("(candidate set, alternative winner, assertion set) triples: n = 2..5 (6
         "non-trivial = the tree has at least one pruned node and n >= 3; distinct = hash of the triple")
 REQUIRED = ["trees_built", "trees_with_unpruned_leaf", "trees_fully_pruned", "pruned_nodes_tag_checked", "marker_checked",
             "parse_checked", "set:raire", "set:raire_minus_one", "set:random", "set:redundant", "set:inconsistent", "set:empty", "parse_multi_contest_logs",
-            "rendered_tags_checked", "rendered_tags_checked:node_pruned_by_both_kinds"]
+            "rendered_tags_checked", "rendered_tags_checked:node_pruned_by_both_kinds",
+            "parse_eliminated_set_names_an_id_outside_the_candidate_list"]
 ASSUMPTIONS = ["tag comparison is by assertion content (the module identifies an assertion by list.index, which maps exact "
                "duplicates to one index)"]
 N_CASES = {"quick": 128000, "thorough": 1024000}
@@ -269,6 +270,11 @@ def run_parse(case, rec, V):
             w, l = rng.sample(cands, 2)
             rest = [c for c in cands if c not in (w, l)]
             E = rng.sample(rest, rng.randint(0, len(rest)))
+            if rng.random() < 0.25:
+                # an id that is not on the contest's candidate list (a write-in, as in the shipped example log): the
+                # assertion says what it says
+                E = E + [rng.choice(("45", "W/I"))]
+                rec.count("parse_eliminated_set_names_an_id_outside_the_candidate_list")
             ajson.append({"assertion_type": "IRV_ELIMINATION", "winner": w, "loser": l, "already_eliminated": E})
             adict[f"a{j}"] = {"winner": w, "loser": l, "proved": proved}
             want_el.append((w, set(E), proved))
